@@ -136,6 +136,37 @@ func (p *provRunner) genPS(r *Rng, prof provProfile, allowTopN bool) string {
 		if r.chance(70) {
 			topn = 50 + r.intn(51)
 		}
+		// boundary values: the smallest whole percentage that a cumulative share of the current active
+		// powers does NOT reach (and the one below it): rounding slips flip exactly there
+		if ap := p.activePowers(); len(ap) > 1 && r.chance(60) {
+			var total, cum int64
+			for _, x := range ap {
+				total += x
+			}
+			k := r.intn(len(ap))
+			// prefer a position after which the power drops: only there does the cut-off validator matter
+			var drops []int
+			for i := 0; i+1 < len(ap); i++ {
+				if ap[i] > ap[i+1] {
+					drops = append(drops, i)
+				}
+			}
+			if len(drops) > 0 && r.chance(80) {
+				k = drops[r.intn(len(drops))]
+			}
+			for i := 0; i <= k; i++ {
+				cum += ap[i]
+			}
+			if total > 0 {
+				n := int((cum*100 + total - 1) / total) // ceil(100*cum/total)
+				if r.chance(25) {
+					n--
+				}
+				if n >= 50 && n <= 100 {
+					topn = n
+				}
+			}
+		}
 	}
 	setcap := 0
 	if r.chance(40) {
@@ -1241,6 +1272,32 @@ func (p *provRunner) liveVals() []int {
 			var id int
 			fmt.Sscan(f[0], &id)
 			out = append(out, id)
+		}
+	}
+	return out
+}
+
+// last powers of the provider's active validators (first M bonded), descending as staking orders them
+func (p *provRunner) activePowers() []int64 {
+	lp := map[string]int64{}
+	for _, e := range splitNE(p.prevG["stk"]) {
+		f := strings.Split(e, ":")
+		if len(f) >= 5 {
+			v, _ := strconv.ParseInt(f[4], 10, 64)
+			lp[f[0]] = v
+		}
+	}
+	m := int64(1 << 40)
+	if f := strings.Split(p.prevG["params"], "/"); len(f) == 2 {
+		m, _ = strconv.ParseInt(f[0], 10, 64)
+	}
+	var out []int64
+	for _, id := range splitNE(p.prevG["bonded"]) {
+		if int64(len(out)) >= m {
+			break
+		}
+		if lp[id] > 0 {
+			out = append(out, lp[id])
 		}
 	}
 	return out
